@@ -49,6 +49,36 @@ def evResToJson : EvRes → Json
         | none => .null
         | some (m, e) => Json.arr #[Json.num (JsonNumber.fromInt m), Json.num (JsonNumber.fromNat e)])]
 
+def evToJson (e : Ev) : Json :=
+  Json.mkObj [
+    ("kind", .str (match e.kind with | .plain => "plain" | .internal => "internal" | .action => "action")),
+    ("name", .str e.name),
+    ("args", Json.arr (e.args.map fun (k, v) => Json.arr #[.str k, valToJson v]).toArray),
+    ("action_uid", match e.actionUid with | some u => .str u | none => .null),
+    ("flow_uid", match e.flowUid with | some u => .str u | none => .null)]
+
+def stmtOfJson (j : Json) : Except String MatchStmt := do
+  let form ← (← j.getObjVal? "form").getStr?
+  let args ← kvsOfJson (← j.getObjVal? "args")
+  match form with
+  | "actionRef" =>
+    let a : ActionObj := { uid := ← (← j.getObjVal? "uid").getStr?, name := ← (← j.getObjVal? "name").getStr?,
+                           startArgs := ← kvsOfJson (← j.getObjVal? "start_args") }
+    pure (.actionRef a (← (← j.getObjVal? "member").getStr?) args)
+  | "flowRef" =>
+    let rv ← match j.getObjVal? "return_value" with
+      | .ok v => do let x ← valOfJson v; pure (some x)
+      | .error _ => pure none
+    let f : FlowObj := { uid := ← (← j.getObjVal? "uid").getStr?, flowId := ← (← j.getObjVal? "flow_id").getStr?,
+                         args := ← kvsOfJson (← j.getObjVal? "flow_args"), returnValue := rv }
+    pure (.flowRef f (← (← j.getObjVal? "member").getStr?) args)
+  | "actionCtor" =>
+    pure (.actionCtor (← (← j.getObjVal? "name").getStr?) (← kvsOfJson (← j.getObjVal? "ctor_args"))
+            (← (← j.getObjVal? "member").getStr?) args)
+  | "bare" =>
+    pure (.bare (← (← j.getObjVal? "name").getStr?) (← (← j.getObjVal? "is_lower").getBool?) args)
+  | _ => throw s!"bad stmt form {form}"
+
 def handle (op : String) (j : Json) : Except String Json := do
   match op with
   | "score" =>
@@ -70,6 +100,11 @@ def handle (op : String) (j : Json) : Except String Json := do
       | _ => pure []
     let startArgs := fun u => (sa.find? (·.1 == u)).map (·.2)
     pure (evResToJson (eventScore rx startArgs ev ref prio))
+  | "stmt" =>
+    let st ← stmtOfJson (← j.getObjVal? "stmt")
+    pure (match refEvent st with
+      | some e => evToJson e
+      | none => Json.mkObj [("unmodelled", true)])
   | _ => throw s!"unknown op C04.{op}"
 
 end NemoVerif.Drive.C04
